@@ -308,6 +308,16 @@ func c19Run(c *Ctx) {
 			}
 		}
 	}
+	// clean programs using less common but valid spellings: status 0, empty stderr
+	for _, src := range []string{
+		Lines(Print("1\u09e8 + \u09e81"), Print("3.\u09e7\u09ea"), Var("\u09a6\u09be\u09ae", "\u09e7\u09e80"), Print("\u09a6\u09be\u09ae * 2")),
+		Lines(Var("t", "0"), For(Var("i", "0"), "i < 3", "i = i + 1", "{ t = t + i; }"), Print("t"), "/* block */ // line", Print(`"fin"`)),
+		Lines(Fun("f", "", ""), "f();", "{ }", ";", If(False(), Print("1")), Print("nil")),
+	} {
+		if c.Mine() {
+			c19Judge(c, &Case{Gen: "clean-programs", Src: src, Stdin: "a\n", X: map[string]string{"tail": "clean"}})
+		}
+	}
 	// every runtime fault of C06's pool, at top level and inside a function: status 70, diagnostics on stderr only
 	for _, f := range c06Faults() {
 		body := Print(f.expr)
